@@ -36,7 +36,7 @@ def boltzmann_velocities(mass, temperature, scale=True, seed=None):
     sigma = np.sqrt(kt * mass)
     p = rng.normal(0.0, sigma)
     if scale:
-        avg_KE = 0.5 * np.dot(p**2, np.reciprocal(mass)) / mass.size
+        avg_KE = 0.5 * np.dot(p**2, 1.0 / mass) / mass.size
         kbT2 = 0.5 * kt
         scal = np.sqrt(kbT2 / avg_KE)
         p *= scal
